@@ -184,6 +184,7 @@ class TLCResult:
         self.lines = []            # decoded JSON records printed by the spec
         self.coverage = {}         # action -> (distinct, total)
         self.raw_tail = ''
+        self.raw = ''
         self.cmd = ''
         self.wall = 0.0
         self.trace = []            # counterexample text lines
@@ -254,6 +255,7 @@ def run_tlc(module, cfg=None, workers=None, simulate=None, depth=None,
             shutil.rmtree(own, ignore_errors=True)
     text = '\n'.join(other)
     res.raw_tail = text[-6000:]
+    res.raw = text
     res.wall = time.time() - t0
     m = re.search(r'(\d+) states generated, (\d+) distinct states found',
                   text)
